@@ -77,7 +77,7 @@ def render(c):
 
 def run(pid, tier, seed, replay):
     ck = Check(pid, tier, seed, level="proof")
-    n = 1500 if tier == "quick" else 30000
+    n = 2000 if tier == "quick" else 40000
     ck.proof_step(extra_targets=["Model/BenchVerify.vo"])
     ok, out, dt = vlib.cargo_build("h_bench", bin="c46")
     ck.log("cargo build: ok=%s (%.0fs)" % (ok, dt))
